@@ -3,6 +3,7 @@
   (every table size, not only k ≤ 16; no enumeration of tables).
 -/
 import M4riProofs.Gray
+import M4riProofs.GenTie
 namespace M4ri.Props.C19
 open M4ri
 
@@ -50,5 +51,26 @@ theorem spread_places_bits (w : Word) (Q : List Nat) (length base : Nat) (h : Sp
 theorem shrink_inverts_spread (w : Word) (Q : List Nat) (length base : Nat) (h : SpreadPre Q length base)
     (hw : w.toNat < 2 ^ length) : shrinkBits (spreadBits w Q length base) Q length base = w :=
   shrinkBits_spreadBits w Q length base h hw
+
+
+/-! ### tie to the C text: the functions below are GENERATED from /repo/m4ri by vlib/ctrans.py (clang AST) on every
+    check (M4ri/Gen/CFuns.lean); these theorems prove them equal to the hand-written model definitions the theorems
+    above are about, for all arguments of the C domain -/
+#check @M4ri.GenTie.leftBitmask_eq
+#check @M4ri.GenTie.rightBitmask_eq
+#check @M4ri.GenTie.middleBitmask_eq
+#check @M4ri.GenTie.getBit_eq
+#check @M4ri.GenTie.writeBit_eq
+#check @M4ri.GenTie.flipBit_eq
+#check @M4ri.GenTie.twopow_eq
+#check @M4ri.GenTie.swapBits_eq
+#check @M4ri.GenTie.lesserLSB_eq
+#check @M4ri.GenTie.spreadBits_eq
+#check @M4ri.GenTie.shrinkBits_eq
+#check @M4ri.GenTie.grayCode_eq
+#check @M4ri.GenTie.log2Floor_eq
+#check @M4ri.GenTie.optK_eq
+#check @M4ri.GenTie.parity64Helper_eq
+#check @M4ri.GenTie.parity64_eq
 
 end M4ri.Props.C19
